@@ -22,7 +22,16 @@ TEMPLATES = {
 }
 
 
-def population(fam, combo):
+HDR_OPTIONAL = {'language': "SECTION_LANGUAGE($,'EN');\n", 'context': "SECTION_CONTEXT($,('ctx'));\n", 'population': "FILE_POPULATION('gs','',$);\n"}
+
+
+def with_header(text, names):
+    """the same file with optional header entities (ISO 10303-21 edition 2) behind FILE_SCHEMA"""
+    i = text.index('ENDSEC;')
+    return text[:i] + ''.join(HDR_OPTIONAL[n] for n in names) + text[i:]
+
+
+def population(fam, combo, comments=False):
     insts = [smodel.inst_text(1, 'TGT', ['11']), smodel.inst_text(2, 'TGT', ['22'])]
     ids = []
     for k, (ent, params, partial) in enumerate(combo):
@@ -32,6 +41,9 @@ def population(fam, combo):
         else:
             insts.append(smodel.inst_text(iid, ent, params))
         ids.append(iid)
+    if comments:
+        # a Part 21 comment in front of every instance: the library keeps it with the instance it precedes
+        insts = ['/* note on %s */\n%s' % (i.split('=')[0], i) for i in insts]
     return smodel.file_text(fam.name, insts), ids
 
 
@@ -88,10 +100,11 @@ def strip_deleted(w):
     pop = p21ref.parse_file(w, working=True)
     out = bytearray()
     pos = 0
+    starts = {int(m.group(1)): m.start() for m in re.finditer(rb'D\s*(?:/\*.*?\*/\s*)*#(\d+)\s*=', w, re.S)}
     for i in pop.insts:
         if i.state == 'D':
             s, e = i.span
-            s -= 1                      # the state letter
+            s = starts.get(i.id, s - 1)     # the state letter (a comment kept with the instance stands between the letter and the name)
             while s > 0 and w[s - 1:s] in (b' ', b'\t'):
                 s -= 1
             while e < len(w) and w[e:e + 1] in (b'\n', b'\r'):
@@ -209,6 +222,7 @@ def gen(fam, tier):
     for n in range(1, nmax + 1):
         for combo in itertools.combinations(T, n):
             text, ids = population(fam, combo)
+            text_c = population(fam, combo, comments=True)[0] if n <= 2 else None
             referenced = set()
             for ent, params, partial in combo:
                 referenced |= {int(x) for x in re.findall(r'#(\d+)', params if isinstance(params, str) else ','.join(params))}
@@ -222,6 +236,11 @@ def gen(fam, tier):
                     if any(s == 'D' and i in referenced for i, s in states):
                         continue
                     yield {'family': fam.name, 'text': text, 'states': states, 'partial': partial, 'combo': [c[0] for c in combo]}
+                    if text_c is not None:
+                        yield {'family': fam.name, 'text': text_c, 'states': states, 'partial': partial, 'combo': [c[0] for c in combo], 'comments': True}
+                    if n == 1:
+                        for hn in (('language',), ('context',), ('language', 'context'), ('population',), ('language', 'context', 'population')):
+                            yield {'family': fam.name, 'text': with_header(text, hn), 'states': states, 'partial': partial, 'combo': [c[0] for c in combo], 'header': list(hn)}
 
 
 def fams():
